@@ -4,36 +4,12 @@
   (counts and the three bases) and the proportions, for every CAT/MR pairing.
 -/
 import CrCube.Props.C03
+import CrCube.Lemmas.Swap
 
 set_option linter.unusedSimpArgs false
 
 namespace CrCube.C10
 open CrCube
-
-/-- the transposed survey: the two answers exchanged -/
-def swapR (r : Resp) : Resp := { r with ans := match r.ans with | [a, b] => [b, a] | x => x }
-def swapS (s : Survey) : Survey := s.map swapR
-
-theorem wsum_map (s : Survey) (f : Resp → Resp) (hf : ∀ r, (f r).w = r.w) (p : Resp → Bool) :
-    wsum (s.map f) p = wsum s (fun r => p (f r)) := by
-  induction s with
-  | nil => simp
-  | cons r s ih => simp only [List.map_cons, wsum_cons, ih, hf]
-
-/-- respondent level: exchanging the variables and the answers exchanges the roles -/
-theorem specCount_swap (R C : Var) (hR : R.CM) (hC : C.CM) (s : Survey) (i j : Nat) (m1 m2 : Bool) :
-    specCount [C, R] (swapS s) [j, i] [m2, m1] = specCount [R, C] s [i, j] [m1, m2] := by
-  unfold specCount swapS
-  rw [wsum_map s swapR (fun _ => rfl)]
-  apply wsum_congr
-  intro r _
-  simp only [specMemAll_11 C R hC.nApparent hR.nApparent, specMemAll_11 R C hR.nApparent hC.nApparent]
-  unfold swapR
-  match r.ans with
-  | [a, b] => simp [Bool.and_comm]
-  | [] => rfl
-  | [_] => rfl
-  | _ :: _ :: _ :: _ => rfl
 
 section
 variable (R C : Var) (hR : R.CM) (hC : C.CM) (s : Survey) (i j : Nat) (hi : i < R.ext) (hj : j < C.ext)
